@@ -91,13 +91,14 @@ def candidates(fname, src):
             yield i, "delete statement", re.match(r"^\s*", line).group(0) + "_ = 0"
 
 
-def build(root, tmp):
+def build(root, tmp, goarch=None):
     src = open(os.path.join(HARNESS, "go.mod")).read().replace("=> /repo", "=> " + root)
     mf = os.path.join(tmp, "go.mod")
     open(mf, "w").write(src)
     shutil.copy(os.path.join(HARNESS, "go.sum"), os.path.join(tmp, "go.sum"))
     out = os.path.join(tmp, "h.test")
-    p = subprocess.run([GO, "test", "-c", "-tags", "verif", "-vet=off", "-o", out, "-modfile=" + mf, "."], cwd=HARNESS, env=ENV, capture_output=True, text=True)
+    env = dict(ENV, GOARCH=goarch) if goarch else ENV
+    p = subprocess.run([GO, "test", "-c", "-tags", "verif", "-vet=off", "-o", out, "-modfile=" + mf, "."], cwd=HARNESS, env=env, capture_output=True, text=True)
     return out if p.returncode == 0 and os.path.exists(out) else None
 
 
@@ -111,7 +112,7 @@ def run_mutant(m):
         lines = open(p).read().split("\n")
         lines[lineno] = newline
         open(p, "w").write("\n".join(lines))
-        binp = build(root, root)
+        binp = build(root, root, "386" if fname == "node16_other.go" else None)  # that file is only compiled for 32-bit targets
         if binp is None:
             res["status"] = "no-compile"
             return res
